@@ -18,8 +18,11 @@ func init() {
 		"the exact errno of each refusal; the golden-file grid of the suite",
 		"that the search-permission test covers the view's root directory itself (the walk checks every directory it descends into)",
 	}
-	register(&Rule{ID: "C03.matrix", Floor: 18,
-		Text: "must-check-before-act, decided on every acyclic path to the act: (1) an entry is added to / removed from directory p only after p.checkPermission(mask including OpenWrite, user) returned true on that path (pointer-equality decisions on the path make the check on one name count for the other; objects allocated by the call need none); (2) the content of an existing file is truncated by a path-level call only after checkPermission including write on that file (or with the decoded open mode, whose decoder guarantees OpenTruncate => OpenWrite, C01.flags); (3) setOwner only after the administrator test; (4) the boolean result of setMode / setModTime is tested and its false branch returns an error; (5) the walk descends into a directory only after checkPermission(OpenLookup) on it; (6) OpenFile hands out a handle on an existing node only after checkPermission on it",
+	register(&Rule{ID: "C03.matrix", Floor: 18, Also: []string{"C11"},
+		// C11: a view's root is never descended into by the walk, so the search permission the parent enforces on the
+		// way down is enforced for the view only by the check on the containing directory at the point of change.
+		AlsoOnly: map[string][]string{"C11": {" insert into ", " remove from "}}, AlsoFloor: map[string]int{"C11": 9},
+		Text: "must-check-before-act, decided on every acyclic path to the act: (1) an entry is added to / removed from directory p only after p.checkPermission(mask including OpenWrite and OpenLookup, user) returned true on that path (pointer-equality decisions on the path make the check on one name count for the other; objects allocated by the call need none); (2) the content of an existing file is truncated by a path-level call only after checkPermission including write on that file (or with the decoded open mode, whose decoder guarantees OpenTruncate => OpenWrite, C01.flags); (3) setOwner only after the administrator test; (4) the boolean result of setMode / setModTime is tested and its false branch returns an error; (5) the walk descends into a directory only after checkPermission(OpenLookup) on it; (6) OpenFile hands out a handle on an existing node only after checkPermission on it",
 		Run:  c03Matrix})
 	register(&Rule{ID: "C03.admin", Floor: 3,
 		Text: "the administrator is never refused: in checkPermission, setMode and setModTime every path that returns false has seen IsAdmin() == false",
@@ -182,14 +185,14 @@ func c03Matrix(rc *RuleCtx) {
 					}
 					bad := false
 					for _, p := range paths {
-						if feasiblePath(p) && !permCheckedOnPath(p, keys, wr, nil) {
+						if feasiblePath(p) && !permCheckedOnPath(p, keys, wr|lk, nil) {
 							bad = true
 						}
 					}
 					if bad {
-						rc.bad(cons, ci.Pos(), "a path reaches this change of the directory's entries without a successful checkPermission(OpenWrite) on that directory: a user without write permission on the directory can create, remove or rename entries in it")
+						rc.bad(cons, ci.Pos(), "a path reaches this change of the directory's entries without a successful checkPermission(OpenWrite|OpenLookup) on that directory: the kernel requires write AND search permission on a directory to create, remove or rename entries in it (the walk checks the search bit only of directories it enters, not of the one it starts from)")
 					} else {
-						rc.good(cons, ci.Pos(), fmt.Sprintf("write permission on the directory checked on all %d paths", len(paths)))
+						rc.good(cons, ci.Pos(), fmt.Sprintf("write and search permission on the directory checked on all %d paths", len(paths)))
 					}
 				}
 			}
